@@ -41,7 +41,7 @@ def run(chk):
     chk.explanation = EXPLANATION
     chk.info.update(P.stats())
     chk.rule("C09.O1", "sum/product/pow reduce plus/product/pow over all argument potentials in order; the combinators are a+b, a*b, a**b", 9)
-    chk.rule("C09.O2", "trans(f, as.constant X)(r) = f(r + X)", 1)
+    chk.rule("C09.O2", "trans(f, as.constant X)(r) = f(r + X)", 2)
     chk.rule("C09.O3", "custom formula: parameters bound positionally before each evaluation; forms registered with each other (ordered pairs) and with pymath", 8)
     chk.rule("C09.O4", "NAME(r, p1..pn) signature parsing: label and parameter list in order", 4)
     chk.rule("C09.O5", "grammar and tree walker agree on every results name: each shape of definition the grammar accepts is walked into a definition tuple", 7)
@@ -123,16 +123,20 @@ def trans_value(chk, P):
     I = F.make_interp(P)
     mod = P.module("atsim.potentials.config._common")
     pfi = I.module_global(mod, "PotentialFormInstanceTuple")
-    first = I.call(pfi, [Const("as.buck"), ListV([], "list"), NONE, NONE], {})
-    second = I.call(pfi, [Const("as.constant"), ListV([Num(ep.sym("X"))], "list"), NONE, NONE], {})
+    mrd = I.module_global(mod, "MultiRangeDefinitionTuple")
+    later = I.call(pfi, [Const("as.zero"), ListV([], "list"), I.call(mrd, [Const(">="), Num(ep.const(2))], {}), NONE], {})
     fi = P.func(MODS, "trans")
-    b = Builder()
-    t = I.run(fi, [ListV([first, second], "list"), PyObjV(b)])
-    v = I.num(I.call(t, [Num(ep.sym("r"))], {}))
-    w = ep.app(("f", 0), [ep.sym("r") + ep.sym("X")])
-    ok = ep.equal(v, w)[0] and len(b.seen) == 1 and b.seen[0].key() == first.key()
-    chk.ob("C09.O2", "trans(f, as.constant X)(r) = f(r + X) with f the first argument, unchanged", ok, site=fi.site(), found=v, expect=w,
-           key="C09.O2|trans")
+    for what, first in (("a single-range definition", I.call(pfi, [Const("as.buck"), ListV([], "list"), NONE, NONE], {})),
+                        ("a definition with a further range ('as.buck >=2 as.zero')",
+                         I.call(pfi, [Const("as.buck"), ListV([], "list"), I.call(mrd, [Const(">"), Num(ep.const(0))], {}), later], {}))):
+        second = I.call(pfi, [Const("as.constant"), ListV([Num(ep.sym("X"))], "list"), NONE, NONE], {})
+        b = Builder()
+        t = I.run(fi, [ListV([first, second], "list"), PyObjV(b)])
+        v = I.num(I.call(t, [Num(ep.sym("r"))], {}))
+        w = ep.app(("f", 0), [ep.sym("r") + ep.sym("X")])
+        ok = ep.equal(v, w)[0] and len(b.seen) == 1 and b.seen[0].key() == first.key()
+        chk.ob("C09.O2", "trans(f, as.constant X)(r) = f(r + X) with f built from the whole first argument, unchanged (%s)" % what, ok,
+               site=fi.site(), found=(v, b.seen), expect=(w, first), key="C09.O2|trans|%s" % what.split(" (")[0])
 
 
 def _form_tuple(I, P, label, params, expr):
